@@ -74,6 +74,16 @@ pub fn pipeline_inputs() -> Vec<PInput> {
         }
     }
     inputs.push(PInput { name: "3D 2x2x2 lattice (ties)", dim: 3, periodic: false, anchor: v(0., 0., 0.), width: v(1., 1., 1.), gens: g, mask: None });
+    // 3x2x2 lattice, non-periodic, n = 12: ties + a size between typical 'small input' thresholds
+    let mut g = vec![];
+    for i in 0..3 {
+        for j in 0..2 {
+            for k in 0..2 {
+                g.push(v((i as f64 + 0.5) / 3. * 1.5, 0.25 + 0.5 * j as f64, 0.25 + 0.5 * k as f64));
+            }
+        }
+    }
+    inputs.push(PInput { name: "3D 3x2x2 lattice n=12 (ties)", dim: 3, periodic: false, anchor: v(0., 0., 0.), width: v(1.5, 1., 1.), gens: g, mask: None });
     // a larger state for the deviation-bounded exploration: 3x3x3 lattice with one generator displaced, masked
     let mut g = vec![];
     for i in 0..3 {
